@@ -288,3 +288,25 @@ func AlwaysNilResult(v ssa.Value) bool {
 	}
 	return true
 }
+
+// ReachableFromEdge: can a path that leaves block b through successor #succ reach the
+// instruction target (edge-sensitively, see EdgeOutcome)?
+func ReachableFromEdge(b *ssa.BasicBlock, succ int, target ssa.Instruction) bool {
+	if succ >= len(b.Succs) {
+		return false
+	}
+	removed := map[Edge]bool{}
+	for i, s := range b.Succs {
+		if i != succ && s != b.Succs[succ] {
+			removed[Edge{b, s}] = true
+		}
+	}
+	first := true
+	return searchEdges(b, removed, func(blk, pred *ssa.BasicBlock) (bool, bool) {
+		if first {
+			first = false
+			return false, false
+		}
+		return blk == target.Block(), false
+	})
+}
